@@ -38,7 +38,7 @@ type SpzFile struct {
 	Deg       int      `json:"deg"`
 	FB        int      `json:"fb"`
 	Flags     int      `json:"flags"`
-	Container string   `json:"container"` // "stored" (hand-written gzip, stored deflate block) | "deflate" (compress/gzip)
+	Container string   `json:"container"`      // "stored" (hand-written gzip, stored deflate block) | "deflate" (compress/gzip)
 	Recs      []string `json:"recs,omitempty"` // hex of each record (small scopes)
 	Family    string   `json:"family"`
 	Gen       string   `json:"gen,omitempty"`    // generated records instead of Recs: "ladder" | "half-all"
